@@ -48,10 +48,10 @@ class App(BaseComponent):
     def _on_request(self, event, req, res, *a):
         kind, size, status, stream = self.plan.pop(0)
         data = payload(size)
+        res.status = status
         if kind == 'list-unicode':
             res.body = ['\u00e9\u20ac', data]
             return res
-        res.status = status
         if kind == 'str':
             return data.decode()
         if kind == 'bytes':
